@@ -59,8 +59,40 @@ const histInputJSON = `{"a":{"b":5},"A":6,"a b":1,"a  b":2,"b":[3,4]}`
 // path every expression takes) and the outputs of eval/1.
 const histDriver = `.in as $in | .progs | map(. as $p | [ (try ($p | _query_fromstring | _query_tostring) catch "ERROR"), (try [$in | eval($p)] catch "ERROR") ])`
 
+// histFiles: modules for the repeat histories. A module in a directory that itself includes
+// a sibling and a module of a sub directory reaching up: their relative paths are resolved
+// against the including module's directory every time the module is loaded.
+var histFiles = map[string][]byte{
+	"top.jq":       []byte(`def t: "t";`),
+	"lib/a.jq":     []byte(`def a: "a";`),
+	"lib/b.jq":     []byte(`include "a"; def b: a + "b";`),
+	"lib/i.jq":     []byte(`import "a" as m; def i: m::a + "i";`),
+	"lib/sub/c.jq": []byte(`include "../a"; def c: a + "c";`),
+	"lib/sub/d.jq": []byte(`include "c"; def d: c + "d";`),
+	"lib/data.json": []byte(`{"k": 5}`),
+}
+
+// repeatPrograms: programs that load modules; each is evaluated two and three times in a
+// row and with every other one in between (A A, A A A, A B A): the last result has to be
+// the result of a lone evaluation on a fresh interpreter.
+var repeatPrograms = []string{
+	`include "top"; t`,
+	`include "./top"; t`,
+	`include "lib/a"; a`,
+	`include "./lib/b"; b`,
+	`include "lib/b"; b`,
+	`import "./lib/b" as m; m::b`,
+	`include "lib/i"; i`,
+	`include "lib/sub/c"; c`,
+	`include "./lib/sub/d"; d`,
+	`import "lib/sub/d" as m; m::d`,
+	`import "lib/data" as $d; $d::d`,
+	`include "lib/b"; include "lib/sub/c"; b + c`,
+	`def f: 1; f`,
+}
+
 func histEval(progs []string) (rows []string, err error) {
-	s, err := fqrun.NewCLISession(nil)
+	s, err := fqrun.NewCLISession(histFiles)
 	if err != nil {
 		return nil, err
 	}
@@ -96,7 +128,7 @@ func histEval(progs []string) (rows []string, err error) {
 // wrapper) and returns what was printed after the last line was entered, approximated by
 // stdout of the whole session minus stdout of the session without the last line.
 func histREPL(lines []string) (string, bool) {
-	res := fqrun.Run(fqrun.Opts{Args: []string{"-n", "-i"}, Lines: lines, StdinIsTerminal: true, StdoutIsTerminal: true})
+	res := fqrun.Run(fqrun.Opts{Args: []string{"-n", "-i"}, Lines: lines, Files: histFiles, StdinIsTerminal: true, StdoutIsTerminal: true})
 	if res.Panic != nil {
 		return fmt.Sprintf("panic: %v", res.Panic), true
 	}
@@ -227,6 +259,35 @@ func runHistories(r *core.Run) bool {
 			return false
 		}
 	}
+	// repeat histories over module loading programs
+	var reps, repsOK int64
+	for i, a := range repeatPrograms {
+		var list [][]string
+		list = append(list, []string{a, a}, []string{a, a, a})
+		for j, b := range repeatPrograms {
+			if i != j {
+				list = append(list, []string{a, b, a})
+			}
+		}
+		for _, seq := range list {
+			idx++
+			if !r.Mine(idx) {
+				continue
+			}
+			if r.Expired() {
+				r.NotExhaustive("deadline: repeat histories not finished")
+				return false
+			}
+			reps++
+			histCheckSeq(r, seq, lone, loneREPL, false)
+			if l, ok := lone[a]; ok && !strings.Contains(l, "ERROR") {
+				repsOK++
+			}
+			r.NontrivialHash(hashText("hist:repeat:" + strings.Join(seq, "\x01")))
+		}
+	}
+	r.Count("history_repeat_sequences", reps)
+	r.Count("history_repeat_sequences_whose_lone_run_loads_its_modules", repsOK)
 	// vacuity guard: members of a class have to be different programs for the driver
 	seen := map[string]struct{}{}
 	for _, v := range lone {
